@@ -39,6 +39,8 @@ type c04Case struct {
 	Reps  int // repetitions (Go's select picks randomly among ready cases)
 	// server-deadline mode: how far ahead the caller's deadline lies when the call starts (microseconds)
 	DeadlineUs int `json:",omitempty"`
+	// Creds: the call carries per-RPC credentials (their callback is handed the call's context)
+	Creds bool `json:",omitempty"`
 }
 
 // manualCtx is a context whose end the harness decides: Done is closed by fire(), Err is
@@ -441,6 +443,10 @@ func c04Run(c *c04Case, carrier string, rep int) *c04Obs {
 	defer car.Close()
 	ctx := context.WithValue(context.Context(mctx), c04Key{}, ctl)
 	var hdr, tlr metadata.MD
+	var credOpts []grpc.CallOption
+	if c.Creds {
+		credOpts = append(credOpts, grpc.PerRPCCredentials(c12Creds{}))
+	}
 	record := func(s string) {
 		mu.Lock()
 		obs.Results = append(obs.Results, s)
@@ -496,7 +502,7 @@ func c04Run(c *c04Case, carrier string, rep int) *c04Obs {
 			trailerOf = func() metadata.MD { return tlr }
 			ctl.at("c:before-invoke")
 			out := new(pb.Message)
-			err := car.Conn.Invoke(ctx, mUnary, &pb.Message{Count: 1}, out, grpc.Header(&hdr), grpc.Trailer(&tlr))
+			err := car.Conn.Invoke(ctx, mUnary, &pb.Message{Count: 1}, out, append(credOpts, grpc.Header(&hdr), grpc.Trailer(&tlr))...)
 			record("invoke: " + errStr(err))
 			if err == nil {
 				mu.Lock()
@@ -519,7 +525,7 @@ func c04Run(c *c04Case, carrier string, rep int) *c04Obs {
 			return
 		}
 		ctl.at("c:before-newstream")
-		cs, err := car.Conn.NewStream(ctx, streamDescOf(c.Kind), methodOf(c.Kind), grpc.Header(&hdr), grpc.Trailer(&tlr))
+		cs, err := car.Conn.NewStream(ctx, streamDescOf(c.Kind), methodOf(c.Kind), append(credOpts, grpc.Header(&hdr), grpc.Trailer(&tlr))...)
 		if err != nil {
 			record("newstream: " + errStr(err))
 			judge("NewStream", err, false)
@@ -767,6 +773,9 @@ func propC04(c c04Case) *Outcome {
 	o := &Outcome{}
 	o.class("carrier=%s/kind=%s", c.Carrier, c.Kind)
 	o.class("mode=%s/attitude=%s", c.Mode, c.Attitude)
+	if c.Creds {
+		o.class("with-per-rpc-credentials")
+	}
 	pclass := c.Point
 	if i := strings.LastIndex(pclass, ":"); i > 0 && !strings.HasPrefix(pclass, "hook:") {
 		pclass = pclass[:i]
@@ -884,6 +893,7 @@ func genC04(t *rapid.T) c04Case {
 		c.NResp = 1
 	}
 	c.Final = rapid.SampledFrom([]uint32{0, 0, 0, 9}).Draw(t, "final")
+	c.Creds = rapid.IntRange(0, 3).Draw(t, "creds") == 0
 	if clientStreaming(c.Kind) && c.Carrier == cInproc && rapid.IntRange(0, 9).Draw(t, "extra") == 0 {
 		c.Attitude = "extra-recv"
 	}
@@ -940,6 +950,7 @@ func init() { registerReplay("C04", propC04) }
 
 const c04Rule = "rapid-generated (thorough: exhaustive grid for scripts of <=2 messages per direction): carrier x RPC kind x {cancel, deadline (harness-owned context whose Done the harness closes)} x handler attitude (ignores its context, returns ctx.Err() when it notices, blocks on ctx.Done(), blocked in an extra RecvMsg) x placement of the instant: before the call, before each client step, synchronously at each handler step, at the in-process unary schedule points (server start, before each frame write, after each frame read, optionally holding the server until the client is past the instant; repeated 4..16 times because Go's select chooses randomly), at the k-th I/O call on the client's connection (HTTP); " +
 	"oracle: every receive/Invoke at or after the instant returns within 20 s with either the complete real result (next message of the model; io.EOF/nil only if the handler returned nil and everything incl. headers and trailers was delivered; the handler's own status) or a status error with code Canceled/DeadlineExceeded - never a non-status error, never success with missing data; repeated receives keep failing; the handler's context ends within the bound (in-process); a handler returning its context error gives the client the matching code; grpc-go arbitrates deviations at script-level placements; " +
+	"also generated since the seeded rounds: wrapped context errors, handlers returning their send error, iosplit placements (context ends inside a frame), mode server-deadline (a deadline 3..30 ms ahead that only the server's timer sees: handler returns its context's error, caller must get a DeadlineExceeded status), and: a nil RecvMsg on a single-response stream implies the handler returned nil; " +
 	"non-trivial = the instant fell inside the call; distinct by case hash"
 
 func TestC04(t *testing.T) {
